@@ -53,6 +53,7 @@ class Run:
         self.dead_addrs = set()
         self.addr_of = {}
         self.addr_reuse = 0  # how often CPython handed a dead object's address to a new instance
+        self.declared = None
 
     def census(self):
         return sorted(o for o, r in self.wr.items() if r() is not None)
@@ -156,6 +157,32 @@ class Run:
         elif a == "query":
             out["census_before"] = self.census()
             bag, foreign, none, err = self.query(CLS[rec["c"]])
+            if err:
+                out["error"] = err
+            out["bag"] = {str(k): v for k, v in sorted(bag.items())}
+            out["foreign"] = foreign
+            out["none"] = none
+        elif a == "declare":
+            # the query object is built now and evaluated by a later step
+            self.declared = an(entity(let(CLS[rec["c"]], None)))
+        elif a == "evaldeclared":
+            out["census_before"] = self.census()
+            err = None
+            try:
+                res = list(self.declared.evaluate())
+            except Exception as ex:
+                err, res = f"{type(ex).__name__}: {ex}", []
+            self.declared = None
+            m = self.idmap()
+            bag, foreign, none = Counter(), 0, 0
+            for r in res:
+                if r is None:
+                    none += 1
+                elif id(r) in m:
+                    bag[m[id(r)]] += 1
+                else:
+                    foreign += 1
+            del res
             if err:
                 out["error"] = err
             out["bag"] = {str(k): v for k, v in sorted(bag.items())}
